@@ -34,6 +34,8 @@ def cases(tier, seed):
                 N = {1: 9, 2: 6, 3: 5}[D] if (o or 0) % 2 == 0 else {1: 10, 2: 5, 3: 4}[D]
                 if name in ("stepper.KolmogorovFlowVelocity", "stepper.NavierStokesVelocity"):
                     N = max(N, 5)
+                if D == spec["dims"][0] and (o == orders[0]):
+                    out.append(dict(kind="ad", cls=name, D=D, N=N, order=o, lite=(tier == "quick"), defaults=True, rs=[seed, env.crc(name), D, o or 0, 1], cost={1: 1, 2: 2, 3: 6}[D]))
                 out.append(dict(kind="ad", cls=name, D=D, N=N, order=o, lite=(tier == "quick"), rs=[seed, env.crc(name), D, o or 0], cost={1: 1, 2: 2, 3: 6}[D]))
     return out
 
@@ -54,12 +56,39 @@ def fd_with_estimate(f, x0, t, h):
     return a, float(np.max(np.abs(a - d1)))
 
 
+def default_intent(ex, name, D, N, rng):
+    """Intent with every float / float-tuple keyword argument at its documented DEFAULT value (zeros included)."""
+    import inspect
+    spec = zoo.SPECS[name]
+    sig = inspect.signature(zoo.get_class(ex, name).__init__)
+    kw = {}
+    for pname, par in sig.parameters.items():
+        d = par.default
+        if pname in ("self", "num_spatial_dims", "domain_extent", "num_points", "dt", "order", "num_circle_points", "circle_radius", "dealiasing_fraction") or d is inspect.Parameter.empty:
+            continue
+        if isinstance(d, bool) or isinstance(d, int):
+            continue
+        if isinstance(d, float):
+            kw[pname] = float(d)
+        elif isinstance(d, tuple) and d and all(isinstance(x, float) for x in d):
+            kw[pname] = [float(x) for x in d]
+    it = dict(cls=name, D=D, N=N, kw=kw)
+    if spec["sig"] == "phys":
+        it["L"], it["dt"] = float(rng.choice([1.0, 2 * np.pi])), float(10 ** rng.uniform(-3, -2))
+    return it
+
+
 def run_case(case, bus, ex):
     import jax, jax.numpy as jnp, equinox as eqx
     rng = env.rng_for(*case["rs"])
     name, D, N, order = case["cls"], case["D"], case["N"], case["order"]
     spec = zoo.SPECS[name]
-    it = zoo.make_intent(rng, name, D, N, variant=int(rng.integers(0, spec["nvar"])), order=order)
+    if case.get("defaults"):
+        it = default_intent(ex, name, D, N, rng)
+        if not spec["linear"] and order is not None:
+            it["kw"]["order"] = order
+    else:
+        it = zoo.make_intent(rng, name, D, N, variant=int(rng.integers(0, spec["nvar"])), order=order)
     if name in zoo.ARRAY_CLASSES:
         for k in list(it["kw"]):
             if k in zoo.ARRAY_ARGS and isinstance(it["kw"][k], float):   # documented traced form is the (D,) array (scalar form is a Python float)
@@ -129,7 +158,7 @@ def run_case(case, bus, ex):
             return cls(D, N, **kw)
 
         g = lambda val: make(val)(uj)
-        psig = sig + (pname, form)
+        psig = sig + (pname, form, "defaults" if case.get("defaults") else "random")
         pinfo = dict(info, parameter=pname, form=form)
         try:
             primal, dv = jax.jvp(g, (jnp.asarray(base),), (jnp.asarray(tp),))
@@ -140,6 +169,7 @@ def run_case(case, bus, ex):
         fin = bool(np.all(np.isfinite(dv)))
         bus.judge("finite", 0.0 if fin else 1.0, 0.5, psig + ("jvp",), witness=dict(pinfo, what="jvp wrt parameter"))
         pscale = float(np.max(np.abs(base))) if np.max(np.abs(base)) > 0 else 1.0
+        psig_zero = bool(np.any(np.asarray(base) == 0.0))
         h = 2e-4 * pscale
         g_np = lambda val: np.asarray(make(jnp.asarray(val) if np.ndim(val) else float(val))(uj))
         fd, est = fd_with_estimate(g_np, base, tp, h)
@@ -147,7 +177,7 @@ def run_case(case, bus, ex):
         if est > 1e-4 * Sp or not np.all(np.isfinite(fd)):
             bus.skip("jvp_param", "finite differences unreliable")
         elif fin:
-            bus.judge("jvp_param", float(np.max(np.abs(dv - fd))), 1e-6 * Sp + 3 * est, psig, sample=dict(pinfo, fd_est=est, dmax=float(np.max(np.abs(fd)))),
+            bus.judge("jvp_param", float(np.max(np.abs(dv - fd))), 1e-6 * Sp + 3 * est, psig, sample=dict(pinfo, fd_est=est, dmax=float(np.max(np.abs(fd))), has_zero_entry=psig_zero),
                       witness=dict(pinfo, fd_est=est, err=float(np.max(np.abs(dv - fd))), dmax=float(np.max(np.abs(fd)))), nontrivial=float(np.max(np.abs(fd))) > 1e-9 * Sp)
         # reverse mode w.r.t. the parameter: gradient of a scalar loss, must be finite and match <c, jvp>
         try:
@@ -185,6 +215,22 @@ def run_case(case, bus, ex):
         (ct2,) = vf(jnp.asarray(c2))
         lhs, rhs = float(np.sum(np.asarray(ct2) * t)), float(np.sum(c2 * jv2))
         bus.judge("adjoint", abs(lhs - rhs), 1e-10 * float(np.sum(np.abs(c2)) * (np.max(np.abs(jv2)) + 1e-300)) + 1e-300, sig + (label,), witness=dict(info, program=label, lhs=lhs, rhs=rhs))
+    # ---- flat states (rest state / constant): derivatives must stay finite wherever the step is, and equal finite differences
+    for label, uflat in (("zero", np.zeros_like(u)), ("constant", np.ones_like(u) * rng.uniform(0.2, 1.0, size=(u.shape[0],) + (1,) * D))):
+        of = np.asarray(st(jnp.asarray(uflat)))
+        if not np.all(np.isfinite(of)):
+            continue
+        _, jvf = jax.jvp(lambda x: st(x), (jnp.asarray(uflat),), (tj,))
+        jvf = np.asarray(jvf)
+        _, vf = jax.vjp(lambda x: st(x), jnp.asarray(uflat))
+        (ctf,) = vf(jnp.asarray(c))
+        fin = bool(np.all(np.isfinite(jvf)) and np.all(np.isfinite(np.asarray(ctf))))
+        bus.judge("finite", 0.0 if fin else 1.0, 0.5, sig + ("flat:" + label,), sample=dict(info, state=label), witness=dict(info, what="jvp/vjp at a flat state", state=label))
+        if fin:
+            fdf, estf = fd_with_estimate(f_np, uflat, t, 1e-3)
+            Sf = float(np.max(np.abs(uflat)) + np.max(np.abs(of)) + np.max(np.abs(t)))
+            if estf <= 1e-4 * Sf:
+                bus.judge("jvp_state", float(np.max(np.abs(jvf - fdf))), 1e-7 * Sf + 3 * estf, sig + ("flat:" + label,), witness=dict(info, state=label, fd_est=estf))
     if name == "stepper.Wave":
         try:
             dL = jax.jvp(lambda L_: zoo.get_class(ex, name)(D, L_, N, it["dt"], **it["kw"])(uj), (jnp.asarray(it["L"]),), (jnp.asarray(1.0),))[1]
